@@ -245,6 +245,75 @@ def call(ex, st, fr, callee, last, args, argops, dest):
             r = b ** e
             return _some(IV(r, ity)) if T.in_range(r, ity) else _none()
         return NotImplemented
+    if ity and re.search(r">::(rem|div)_euclid$", c):
+        op = re.search(r">::(rem|div)_euclid$", c).group(1)
+        _use("core::num::<impl int>::%s_euclid (over the truncated division; panics for a zero divisor and MIN / -1)" % op)
+        a, b = args[0].t, args[1].t
+        lo, _ = ty_range(ity)
+        zero = T.eq(b, 0)
+        ovf = T.band(T.eq(a, lo), T.eq(b, -1)) if INT_TYPES[ity][0] else False
+        for cond in (zero, ovf):
+            if cond is True:
+                return _panic(ex, st, "attempt to divide by zero" if cond is zero else "attempt to divide with overflow")
+            if cond is not False:
+                tid = cond.get_id()
+                if tid in st.true_ids:
+                    return _panic(ex, st, "attempt to divide by zero" if cond is zero else "attempt to divide with overflow")
+                if tid not in st.false_ids:
+                    raise E.Fork([(cond, None), (z3.Not(cond), None)])
+        q, r = ex.tdivmod(st, a, b, ity)
+        neg = T.lt(r, 0)
+        bpos = T.lt(0, b)
+        if op == "rem":
+            return IV(T.ite(neg, T.ite(bpos, T.add(r, b), T.sub(r, b)), r), ity)
+        return IV(T.ite(neg, T.ite(bpos, T.sub(q, 1), T.add(q, 1)), q), ity)
+    if ity and c.endswith(">::checked_ilog10"):
+        _use("core::num::<impl int>::checked_ilog10 (None for arguments <= 0, otherwise forks over the possible results)")
+        x = args[0].t
+        if is_conc(x):
+            return _none() if x <= 0 else _some(IV(len(str(int(x))) - 1, "u32"))
+        _, hi = ty_range(ity)
+        alts = [(T.le(x, 0), _none())]
+        k = 0
+        while 10 ** k <= hi:
+            alts.append((T.band(T.le(10 ** k, x), T.lt(x, 10 ** (k + 1))) if 10 ** (k + 1) <= hi else T.le(10 ** k, x), _some(IV(k, "u32"))))
+            k += 1
+        return E._Alts(alts)
+    if ity and c.endswith(">::ilog10"):
+        _use("core::num::<impl int>::ilog10 (forks over the 39 possible results; panics for arguments <= 0)")
+        x = args[0].t
+        if is_conc(x):
+            if x <= 0:
+                return _panic(ex, st, "argument of integer logarithm must be positive")
+            return IV(len(str(int(x))) - 1, "u32")
+        _, hi = ty_range(ity)
+        alts = [(T.le(x, 0), _panic(ex, st, "argument of integer logarithm must be positive"))]
+        k = 0
+        while 10 ** k <= hi:
+            alts.append((T.band(T.le(10 ** k, x), T.lt(x, 10 ** (k + 1))) if 10 ** (k + 1) <= hi else T.le(10 ** k, x), IV(k, "u32")))
+            k += 1
+        return _outcome_alts(ex, st, alts)
+    if ity and c.endswith(">::count_ones") and is_conc(args[0].t):
+        _use("core::num::<impl int>::count_ones (concrete argument)")
+        w = INT_TYPES[ity][1]
+        return IV(bin(int(args[0].t) & ((1 << w) - 1)).count("1"), "u32")
+    if ity and re.search(r">::saturating_(neg|abs)$", c):
+        _use("core::num::<impl int>::saturating_neg / saturating_abs")
+        x = args[0].t
+        lo, hi = ty_range(ity)
+        if c.endswith("neg"):
+            return IV(T.ite(T.eq(x, lo), hi, T.neg(x)), ity)
+        return IV(T.ite(T.eq(x, lo), hi, T.ite(T.le(0, x), x, T.neg(x))), ity)
+    if re.match(r"^<(%s) as (std::cmp::)?Ord>::clamp$" % INTS, c):
+        _use("Ord::clamp on primitive integers (panics if min > max)")
+        x, lo_, hi_ = args[0].t, args[1].t, args[2].t
+        bad = T.lt(hi_, lo_)
+        val = IV(T.ite(T.lt(x, lo_), lo_, T.ite(T.lt(hi_, x), hi_, x)), args[0].ty)
+        if bad is False:
+            return val
+        if bad is True:
+            return _panic(ex, st, "assertion failed: min <= max")
+        return _outcome_alts(ex, st, [(bad, _panic(ex, st, "assertion failed: min <= max")), (T.bnot(bad), val)])
     if ity and c.endswith(">::unsigned_abs"):
         _use("core::num::<impl int>::unsigned_abs")
         x = args[0].t
@@ -572,11 +641,57 @@ def call(ex, st, fr, callee, last, args, argops, dest):
         mself = re.match(r"^<(.+?) as ", fname)
         if mself:
             cands = [f for f in cands if norm_type(f.params[0][1]) == norm_type(mself.group(1))]
+        if not cands:
+            # a function of core (e.g. i8::unsigned_abs): through its builtin model, plain results only
+            r = call(ex, st, fr, fname, flast, [v.fields[0]], None, None)
+            if r is NotImplemented or isinstance(r, (E._Alts, E.Outcome, E._Enter)):
+                return NotImplemented
+            return wrap(r)
         if len(cands) != 1:
             return NotImplemented
         _use("Option/Result::map over a function item (local function executed from its MIR)")
         alts = ex_call_local(ex, st, cands[0], [v.fields[0]], fr)
         return _map_alts(ex, st, alts, wrap)
+    m = re.match(r"^Option::<.*>::(map_or|is_some_and|filter)::<.*?(\{closure@.*\})>$", c)
+    if m and isinstance(args[0], E.EnumV):
+        meth = m.group(1)
+        _use("Option::%s (closure executed from its MIR)" % meth)
+        v = args[0]
+        if v.variant == 0:
+            return args[1] if meth == "map_or" else (False if meth == "is_some_and" else _none())
+        clo = ex.prog.closures.get(norm_type(m.group(2)))
+        if clo is None:
+            return NotImplemented
+        if meth == "map_or":
+            alts = ex_call_local(ex, st, clo, [args[2], v.fields[0]], fr)
+            return _map_alts(ex, st, alts, lambda val: val)
+        if meth == "is_some_and":
+            alts = ex_call_local(ex, st, clo, [args[1], v.fields[0]], fr)
+            return _map_alts(ex, st, alts, lambda val: val)
+        # filter: the predicate takes a reference to the payload
+        box = ("tmp", "filter", st.next_uid)
+        st.next_uid += 1
+        st.heap[box] = v.fields[0]
+        alts = ex_call_local(ex, st, clo, [args[1], E.RefV(box=box)], fr)
+        out = []
+        for pcs, defs, o in alts:
+            cond = T.band(*pcs) if pcs else True
+            if o.kind == "panic":
+                out.append((cond, _WithDefs(E.Outcome("panic", None, None, o.msg), defs, o.state)))
+                continue
+            keep = o.value
+            if isinstance(keep, bool):
+                out.append((cond, _WithDefs(v if keep else _none(), defs, o.state)))
+            else:
+                out.append((T.band(cond, keep), _WithDefs(v, defs, o.state)))
+                out.append((T.band(cond, T.bnot(keep)), _WithDefs(_none(), defs, o.state)))
+        return E._Alts(out)
+    if re.match(r"^Option::<.*>::zip::<.*>$", c) and isinstance(args[0], E.EnumV) and isinstance(args[1], E.EnumV):
+        _use("Option::zip")
+        a, b = args
+        if a.variant == 1 and b.variant == 1:
+            return _some(E.Agg("tuple", (a.fields[0], b.fields[0])))
+        return _none()
     if re.match(r"^Option::<.*>::unwrap_or$", c):
         _use("Option::unwrap_or")
         v = args[0]
@@ -649,6 +764,56 @@ def call(ex, st, fr, callee, last, args, argops, dest):
         return NotImplemented
     if re.match(r"^must_use::<", c) or re.match(r"^(std|core)::hint::must_use::<", c):
         return args[0]
+
+    # ---- ranges as iterators ---------------------------------------------------------------
+    if re.match(r"^<(std::ops::|core::ops::)?Range(Inclusive)?<\w+> as IntoIterator>::into_iter$", c):
+        _use("<Range<T> as IntoIterator>::into_iter (identity)")
+        return args[0]
+    if re.match(r"^(std::ops::|core::ops::)?RangeInclusive::<\w+>::new$", c):
+        _use("RangeInclusive::new (start, end, exhausted = false)")
+        return E.Agg("struct:RangeInclusive", (args[0], args[1], False))
+    m = re.match(r"^<(?:std::ops::|core::ops::)?Range(Inclusive)?<(\w+)> as Iterator>::next$", c)
+    if m and isinstance(args[0], E.RefV):
+        r = ex.read_ref(st, args[0])
+        if isinstance(r, E.Agg) and len(r.fields) >= 2:
+            ty = m.group(2)
+            start, end = r.fields[0], r.fields[1]
+            if not m.group(1):
+                _use("<Range<T> as Iterator>::next (start < end: yield start, start += 1)")
+                more = T.lt(start.t, end.t)
+
+                def adv(s2, start=start, end=end, ref=args[0], kind=r.kind):
+                    ex.write_ref(s2, ref, E.Agg(kind, (IV(T.add(start.t, 1), ty), end)))
+                if more is True:
+                    adv(st)
+                    return _some(start)
+                if more is False:
+                    return _none()
+                return E._Alts([(more, _some(start), adv), (T.bnot(more), _none())])
+            _use("<RangeInclusive<T> as Iterator>::next (yields start..=end once, then exhausted)")
+            exh = r.fields[2] if len(r.fields) > 2 else False
+            if exh is True:
+                return _none()
+            if exh is not False:
+                return NotImplemented
+            lt = T.lt(start.t, end.t)
+            eq = T.eq(start.t, end.t)
+
+            def adv1(s2, start=start, end=end, ref=args[0], kind=r.kind):
+                ex.write_ref(s2, ref, E.Agg(kind, (IV(T.add(start.t, 1), ty), end, False)))
+
+            def adv2(s2, start=start, end=end, ref=args[0], kind=r.kind):
+                ex.write_ref(s2, ref, E.Agg(kind, (start, end, True)))
+            alts = []
+            for cond, val, fn in ((lt, _some(start), adv1), (eq, _some(start), adv2), (T.bnot(T.bor(lt, eq)), _none(), None)):
+                if cond is False:
+                    continue
+                if cond is True:
+                    if fn:
+                        fn(st)
+                    return val
+                alts.append((cond, val, fn) if fn else (cond, val))
+            return E._Alts(alts)
 
     # ---- floats (carried as bit patterns) -----------------------------------------------
     m = re.match(r"^core::(f64|f32)::<impl (?:f64|f32)>::(to_bits|from_bits|is_nan|is_infinite)$", c)
@@ -754,6 +919,8 @@ def ex_call_local(ex, st, fdef, args, fr, subst=None):
     E = _E()
     s2 = st.copy()
     n_pc, n_defs = len(s2.pc), len(s2.defs)
+    if subst is None and fr is not None and "{closure" in fdef.name:
+        subst = fr.subst        # a closure sees the generic parameters (Self, T) of the function it is written in
     nf = E.Frame(s2.next_uid, fdef, subst or {})
     s2.next_uid += 1
     for (pname, _), a in zip(fdef.params, args):
@@ -976,6 +1143,38 @@ def _fmt_models(ex, st, fr, c, last, args):
         _use("Formatter::precision (environment input)")
         f = _deref_all(ex, st, args[0])
         return f.payload["precision"]
+    m = re.match(r"^(core::fmt::)?Formatter::<'_>::(width|sign_plus|sign_minus|sign_aware_zero_pad|alternate|fill)$", c)
+    if m:
+        _use("Formatter::%s (environment input: the format spec of the caller)" % m.group(2))
+        f = _deref_all(ex, st, args[0])
+        pl = f.payload if isinstance(f, E.Opaque) and isinstance(f.payload, dict) else {}
+        if m.group(2) == "width":
+            if "width" in pl:
+                return pl["width"]
+            # unknown width: None or some usize, decided by a fresh Boolean per formatter
+            key = ("fmtwidth", id(f))
+            if key not in st.divcache:
+                st.divcache[key] = (T.fresh_bool("has_width"), T.fresh_int("width"), f)
+                st.defs.append(z3.And(st.divcache[key][1] >= 0, st.divcache[key][1] < (1 << 63)))
+            hb, wv, _ = st.divcache[key]
+            return E._Alts([(hb, _some(IV(wv, "usize"))), (z3.Not(hb), _none())])
+        if m.group(2) == "fill":
+            return NotImplemented
+        if m.group(2) in pl:
+            return pl[m.group(2)]
+        key = ("fmtflag", m.group(2), id(f))
+        if key not in st.divcache:
+            st.divcache[key] = (T.fresh_bool(m.group(2)), f)
+        return st.divcache[key][0]
+    if re.match(r"^(alloc::string::)?String::len$", c):
+        v = _deref_all(ex, st, args[0])
+        if isinstance(v, E.Opaque) and v.tag == "String":
+            _use("String::len of a rendered string (unknown length: a fresh usize per string)")
+            key = ("strlen", id(v))
+            if key not in st.divcache:
+                st.divcache[key] = (T.fresh_int("len"), v)
+                st.defs.append(z3.And(st.divcache[key][0] >= 0, st.divcache[key][0] < (1 << 40)))
+            return IV(st.divcache[key][0], "usize")
     if re.match(r"^(core::fmt::)?Formatter::<'_>::pad_integral$", c):
         _use("Formatter::pad_integral (observation; width/fill/alignment/sign handling is core::fmt's documented integer formatting)")
         buf = args[3]
